@@ -68,7 +68,17 @@ Case(a, p) == [ast |-> a, tokens |-> p, table |-> Table(a), leaves |-> NAttr]
 \* the alphabet of the totality domain (every string over it up to a length bound is parsed)
 Alphabet == <<"(", ")", "&&", "||", "&", "|", "::", ":", "A", "é", " ", "*">>
 
+\* the broadcast "*" as an operand (only legal as the last token or inside its own parentheses)
+Star == [t |-> "star"]
+SmallAsts == UNION {Asts(n) : n \in 1..2}
+StarCases == UNION {{ Case([t |-> "or", l |-> a, r |-> Star], Wrap(Minimal(a)) \o <<"||", "*">>),
+                      Case([t |-> "and", l |-> a, r |-> Star], Wrap(Minimal(a)) \o <<"&&", "*">>),
+                      Case([t |-> "or", l |-> Star, r |-> a], <<"(", "*", ")", "||">> \o Wrap(Minimal(a))),
+                      Case([t |-> "and", l |-> Star, r |-> a], <<"(", "*", ")", "&&">> \o Wrap(Minimal(a))),
+                      Case([t |-> "or", l |-> a, r |-> Star], Minimal(a) \o <<"||", "(", "*", ")">>) } : a \in SmallAsts}
+
 Gen == /\ \A a \in AllAsts : \A p \in Printings(a) : PrintT(<<"CASE", ToJson(Case(a, p))>>)
+       /\ \A c \in StarCases : PrintT(<<"CASE", ToJson(c)>>)
        /\ PrintT(<<"CASE", ToJson([ast |-> [t |-> "star"], tokens |-> <<"*">>, table |-> Table([t |-> "star"]), leaves |-> NAttr])>>)
        /\ PrintT(<<"ALPHABET", ToJson(Alphabet)>>)
        /\ PrintT(<<"GEN-DONE", Cardinality(AllAsts)>>)
